@@ -114,8 +114,8 @@ CLAIMS = {
     "C13": ("proof", "Coq proof by induction on fuel (history preserved through negamax and the root loop) + repeated real searches",
             "Proof on the model: every search that returns gives back the history it was given (any limit, window, table), the position is "
             "passed by value, and the model is a function of its inputs. That the Rust has no hidden input is measured: state snapshots and "
-            "each search executed twice in separate processes, incl. a node-budget sweep on middlegame roots. A result, once defined, is the same for every larger fuel (C13_result_does_not_depend_on_fuel).", "DESIGN.md section 6 C13",
-            "modulo fuel: statements are about searches that return; the fuel only bounds the recursion depth (monotonicity proved)"),
+            "each search executed twice in separate processes, incl. a node-budget sweep on middlegame roots. A result, once defined, is the same for every larger fuel (C13_result_does_not_depend_on_fuel), and the search does return (SearchTotal, C03/C15). At the level of the command loop a go command of any kind leaves position, history, Hash option and Chess960 flag as they were (C13_go_leaves_the_game_state_alone).", "DESIGN.md section 6 C13",
+            ""),
     "C14": ("proof", "Coq proof on the root loop (iterations in order, node/depth limit clauses, bestmove = last pv) + differential; time = measurement",
             "Proof on the model for: iterations reported consecutively from 1, nothing deeper than a depth limit, no iteration >= 2 reported at or "
             "beyond a node limit, answer = first move of the last pv; every reported score within [-MATE, MATE] (strictly inside +-INF) and the table left "
